@@ -245,8 +245,69 @@ def run(ctx, report):
             else:
                 R3.violation(inst, 'mode:detect:u32-nobreak', 'a 32-bit register no longer ends the operand-mode detection: a later 16-bit operand can override it', where(arch, st))
 
+    # MMX/SSE rows never take part in the 16/32-bit operand-mode detection (0x66 is their mandatory prefix)
+    cb = None
+    for n in walk_no_nested(ac):
+        if isinstance(n, ast.For) and u(n.iter) == 'candidate' and any(isinstance(x, ast.Assign) and u(x.targets[0]) == 'can_be_16_32' for s2 in n.body for x in ast.walk(s2)):
+            cb = n
+    if cb is None:
+        raise AnalysisError('asm_candidates: the loop that clears can_be_16_32 was not found')
+    from ..consteval import Evaluator as _Ev3, Obj as _Obj3, Native as _Nat3, NotConst as _NC3
+    for label, mods in (('mmx', {'mmx': True}), ('sd', {'sd': True}), ('wd', {'wd': True}), ('plain', {})):
+        cobj = _Obj3('c')
+        base = dict((E[k], None) for k in ('w8', 'se', 'sw', 'sd', 'wd', 'mmx', 'sg', 'cr', 'dr'))
+        base.update(dict((E[k], v) for k, v in mods.items()))
+        cobj.modifs = base
+        lg = _Obj3('log')
+        lg.debug = _Nat3(lambda *a: None)
+        scope = dict(E)
+        scope.update({'candidate': [cobj], 'can_be_16_32': True, 'log': lg})
+        ev3 = _Ev3({})
+        ev3.env = scope
+        try:
+            ev3.exec_stmts([cb], scope)
+        except _NC3 as e:
+            raise AnalysisError('asm_candidates: can_be_16_32 loop not evaluable: %s' % e)
+        got = scope['can_be_16_32']
+        want = (label == 'plain')
+        inst = 'mode-detection-applies:%s' % label
+        if got == want:
+            R3.ok(inst, sample='rows with %s: operand-mode detection %s' % (label, 'applies' if want else 'is skipped'))
+        else:
+            R3.violation(inst, 'mode:detect:applies:%s' % label, 'the 16/32-bit operand-mode detection %s for rows with the %s attribute: a 16-bit operand then adds a 0x66 prefix, which for MMX/SSE '
+                         'rows selects another instruction' % ('runs' if got else 'is skipped', label), where(arch, cb), witness="asm('pinsrw mm0, WORD PTR [eax], 1') == 66 0f c4 00 01 (pinsrw xmm0)")
+    # the prefix list accumulates segment and size prefixes: tests on it must be membership tests
+    n_pl = 0
+    for n in walk_no_nested(ac):
+        if isinstance(n, ast.Compare) and u(n.left) == 'prefix' and isinstance(n.ops[0], (ast.Eq, ast.NotEq)) and isinstance(n.comparators[0], ast.List):
+            n_pl += 1
+            R3.violation('prefix-compare:%s' % norm(n), 'prefix:list-compare:%s' % norm(n), 'asm_candidates compares the whole prefix list with %s; a segment override appended earlier makes the test fail'
+                         % u(n.comparators[0]), where(arch, n), witness="asm('movq xmm0, QWORD PTR fs:[eax]') returns only F3 0F 6E (undefined)")
+    if n_pl == 0:
+        R3.ok('prefix-compare', sample='no comparison of the whole prefix list with a literal list in asm_candidates')
+    # MMX/SSE rows with a plain name whose register file depends on the prefix need an assembler special case that adds 0x66
+    plain = set()
+    for row, opc, nm in X.variants:
+        if nm.get(E['mmx']) and '#' not in row.name and not isinstance(row.afs, int):
+            plain.add(row.name)
+    for nm_ in sorted(plain):
+        a0 = X.dis_mmx_modes(nm_, [], False)
+        a1 = X.dis_mmx_modes(nm_, [0x66], False)
+        inst = 'plain-mmx-row:%s' % nm_
+        if a0 == a1 or not isinstance(a0, tuple) or not isinstance(a1, tuple):
+            R3.ok(inst, sample='%s: register files do not depend on the prefix' % nm_, nontrivial=False)
+            continue
+        special = [n for n in walk_no_nested(ac) if isinstance(n, ast.If) and u(n.test) in ("name == '%s'" % nm_,) and
+                   any(isinstance(x, ast.Call) and u(x.func) == 'prefix.append' for s2 in n.body for x in ast.walk(s2))]
+        if special:
+            R3.ok(inst, sample='%s: asm_candidates adds the mandatory prefix in a special case' % nm_)
+        else:
+            R3.violation(inst, 'plain-mmx:%s' % nm_, 'the decoder distinguishes the mm and xmm forms of %s by the 0x66 prefix, but the row has a plain name (no # suffix scheme) and asm_candidates has no '
+                         'special case adding the prefix: the xmm form is assembled as the mm form' % nm_, where(arch, ac), witness="asm('pmovmskb eax, xmm0') == 0f d7 c0")
+
     R4 = report.rule('C02.D4', 'grammar actions accumulate register coefficients when they merge two parsed operands', floor=2)
     accumulate_rule(R4, att, pa)
+    imm_accumulate_rule(R4, att, pa)
 
     R5 = report.rule('C02.D5', 'the reverse ModRM table maps every operand shape to ModRM/SIB bytes that decode to that shape', floor=1000)
     T = X.modrm_tables()
@@ -398,6 +459,51 @@ def run(ctx, report):
             R2.violation('tab_size2int[%s]' % tok, 'tab_size2int:%s' % tok, 'tab_size2int[%s] is %s, expected %s' % (tok, got, want), where(arch, arch.assigns['tab_size2int'][-1]))
 
 
+def imm_accumulate_rule(R4, att, pa):
+    """Grammar actions that combine two sub-results which can both carry a number (imm) must add the numbers."""
+    import re as _re
+    for mod_, fns in ((att, att.funcs), (pa, pa.funcs)):
+        for name, fn in sorted(fns.items()):
+            if not name.startswith('p_') or not fn.args.args or not fn.body or not isinstance(fn.body[0], ast.Expr):
+                continue
+            doc = fn.body[0].value.value if isinstance(fn.body[0].value, ast.Constant) else ''
+            tn = fn.args.args[0].arg
+            alias = None
+            for st in fn.body:
+                if isinstance(st, ast.Assign) and len(st.targets) == 1 and u(st.targets[0]) == '%s[0]' % tn and isinstance(st.value, ast.Subscript) \
+                        and u(st.value.value) == tn and isinstance(st.value.slice, ast.Constant):
+                    alias = st.value.slice.value
+                # t[0][x86_afs.imm] = V   on an aliased sub-result that is an expression / constant (may already hold a number)
+                if alias is not None and isinstance(st, ast.Assign) and u(st.targets[0]) == '%s[0][x86_afs.imm]' % tn:
+                    syms = doc.split(':', 1)[1].split('|')[0].split() if ':' in doc else []
+                    sub = syms[alias - 1] if 0 < alias <= len(syms) else '?'
+                    if sub not in ('expression', 'constant', 'formula', 'brackets', 'address'):
+                        continue
+                    inst = '%s:%s' % (name, norm(st))
+                    vt = u(st.value).replace(' ', '')
+                    if any(('%s[%d].get(x86_afs.imm,0)' % (tn, k)) in vt for k in (0, alias)) or ('%s[%d][x86_afs.imm]' % (tn, alias)) in vt:
+                        R4.ok(inst, sample='%s: %s' % (name, norm(st)[:90]))
+                    else:
+                        R4.violation(inst, 'imm-overwrite:%s' % name, '%s stores a number into the result aliased from the %s %s[%d] without adding the number that sub-result may already carry: '
+                                     'the inner displacement is lost' % (name, sub, tn, alias), where(mod_, st), witness="asm('mov eax, DWORD PTR 4[ebx+8]') addresses [ebx+4]")
+                # t[0].update(t[j]) of two constants
+                if alias is not None and isinstance(st, ast.Expr) and isinstance(st.value, ast.Call) and u(st.value.func) == '%s[0].update' % tn and st.value.args:
+                    other = st.value.args[0]
+                    if isinstance(other, ast.Subscript) and u(other.value) == tn and isinstance(other.slice, ast.Constant):
+                        syms = doc.split(':', 1)[1].split('|')[0].split() if ':' in doc else []
+                        j = other.slice.value
+                        a_sym = syms[alias - 1] if 0 < alias <= len(syms) else '?'
+                        b_sym = syms[j - 1] if 0 < j <= len(syms) else '?'
+                        if a_sym == b_sym == 'constant':
+                            inst = '%s:%s' % (name, norm(st))
+                            txt = ' '.join(u(x) for x in fn.body).replace(' ', '')
+                            if ('%s[%d][x86_afs.imm]+%s[%d][x86_afs.imm]' % (tn, alias, tn, j)) in txt or ('%s[%d][x86_afs.imm]+%s[%d][x86_afs.imm]' % (tn, j, tn, alias)) in txt:
+                                R4.ok(inst, sample='%s adds the numbers of both constants before merging' % name)
+                            else:
+                                R4.violation(inst, 'imm-overwrite:%s' % name, '%s merges two constants with dict.update: the number of the right operand replaces the number of the left one' % name,
+                                             where(mod_, st), witness="asm_att('movl $1+2, %eax') loads 2")
+
+
 def accumulate_rule(R4, att, pa):
     import re as _re
     for mod_, fns in ((att, att.funcs), (pa, pa.funcs)):
@@ -464,6 +570,11 @@ MUTANTS = [
     ('fd-afs-mm-all-bytes', 'miasmx/arch/ia32_arch.py', "            # the reverse table only lists bytes with an empty reg field\n            if i == i&0xC7:\n                self.fd_afs[ad].append((i, None))", "            self.fd_afs[ad].append((i, None))", 'C02.D5'),
     ('fd-afs-wrong-index', 'miasmx/arch/ia32_arch.py', "                if not (index, None)  in self.fd_afs[ad]:\n                    self.fd_afs[ad].insert(0, (index, None) )\n        for i in range(0x100):", "                if not (index, None)  in self.fd_afs[ad]:\n                    self.fd_afs[ad].insert(0, (index^1, None) )\n        for i in range(0x100):", 'C02.D5'),
     ('mode-detect-break', 'miasmx/arch/ia32_arch.py', "                    # keep looking: a 32-bit register further on wins\n                    # (e.g. the port register of 'out dx, eax')\n                    self.mnemo_mode = u16\n", "                    self.mnemo_mode = u16\n                    break\n", 'C02.D3'),
+    ('brackets-overwrite', 'miasmx/core/parse_ad.py', "    t[0] = t[3]\n    t[0][x86_afs.imm] = t[0].get(x86_afs.imm, 0) + int(int32(uint32(int(t[1]))))", "    t[0] = t[3]\n    t[0][x86_afs.imm] = int(int32(uint32(int(t[1]))))", 'C02.D4'),
+    ('att-const-update', 'miasmx/arch/ia32_att.py', "    if x86_afs.imm in t[1] and x86_afs.imm in t[3]:\n        # both sides carry a number: add them\n        t[3][x86_afs.imm] = t[1][x86_afs.imm] + t[3][x86_afs.imm]\n", "", 'C02.D4'),
+    ('mmx-mode-detect', 'miasmx/arch/ia32_arch.py', "            if c.modifs[sd] or c.modifs[wd] or c.modifs[mmx]:\n                can_be_16_32 = False", "            if c.modifs[sd] or c.modifs[wd]:\n                can_be_16_32 = False", 'C02.D3'),
+    ('prefix-list-eq', 'miasmx/arch/ia32_arch.py', "if name == 'mov#d#' and 0xF3 in prefix:", "if name == 'mov#d#' and prefix == [0xF3]:", 'C02.D3'),
+    ('pmovmskb-noprefix', 'miasmx/arch/ia32_arch.py', "        elif name == 'pmovmskb':\n            # plain row name: the xmm form needs its mandatory prefix\n            if [a for a in args_eval if a[x86_afs.size] == x86_afs.xmm]:\n                prefix.append(0x66)\n", "", 'C02.D3'),
     ('forge-nocheck', 'miasmx/arch/ia32_arch.py', "                v = check_imm_size(a.get(x86_afs.imm, 0), ad[x86_afs.imm])\n                if v is None:\n                    log.debug(\"cannot encode this val in size forge!\")\n                    return None, None\n",
      "                v = tab_size2int[ad[x86_afs.imm]](a.get(x86_afs.imm, 0))\n", 'C02.D1'),
 ]
